@@ -464,3 +464,433 @@ theorem Info.fromRaw_ok {raw : List Int} {da db : Nat} {x : Info}
     infoSettings_ok ‹infoSettings _ da db = Res.ok _›⟩)
 
 end Tw.Map
+
+namespace Tw.Map
+open Tw.Datafile Tw.Gen.MapItems
+
+/-! ### the `map::Reader` accessors on a datafile that satisfies the bounds invariant -/
+
+theorem liftDf_ok {α : Type} {o : Outcome α} {a : α} (h : o = .ok a) : liftDf o = .ok a := by
+  subst h; rfl
+
+theorem numData_ok {r : Reader} (inv : Inv r) : numData r = .ok r.numData.toNat := by
+  unfold numData Reader.numDataU
+  have := inv.nd
+  rw [if_neg (by omega)]; rfl
+
+theorem typeRange_ok {r : Reader} (inv : Inv r) (t : Nat) :
+    ∃ a b, typeRange r t = .ok (a, b) ∧ a ≤ b ∧ b ≤ r.numItems.toNat := by
+  obtain ⟨a, b, e, h1, h2⟩ := itemTypeIndices_ok inv t
+  exact ⟨a, b, by unfold typeRange; rw [e]; rfl, h1, h2⟩
+
+theorem typeRange_inv {r : Reader} {t a b : Nat} (h : typeRange r t = .ok (a, b)) :
+    r.itemTypeIndices t = .ok (a, b) := by
+  unfold typeRange liftDf at h
+  split at h <;> simp_all
+
+theorem version_no_panic {r : Reader} (inv : Inv r) (s : String) : version r ≠ .panic s := by
+  obtain ⟨res, hres, _⟩ := findItem_ok inv MAP_ITEMTYPE_VERSION 0
+  unfold version
+  rw [liftDf_ok hres]
+  cases res with
+  | none => simp
+  | some v =>
+    simp only
+    split
+    · simp
+    · rename_i hx; exact absurd hx (fromSliceRest_ignore rfl _ _)
+    · rename_i hx; exact absurd hx (fromSliceRest_no_panic _ _ _)
+    · simp
+
+theorem checkVersion_no_panic {r : Reader} (inv : Inv r) (s : String) : checkVersion r ≠ .panic s := by
+  unfold checkVersion
+  split
+  · simp
+  · rename_i hx; exact absurd hx (version_no_panic inv _)
+  · split <;> simp
+
+theorem wrapErr_no_panic {α : Type} {pre : String} {x : Res α} {s : String}
+    (h : x ≠ .panic s) : wrapErr pre x ≠ .panic s := fun hx => h (wrapErr_panic hx)
+
+theorem info_spec {r : Reader} (inv : Inv r) :
+    (∀ s, info r ≠ .panic s) ∧ ∀ i, info r = .ok i →
+      OptIn i.author 0 r.numData.toNat ∧ OptIn i.version 0 r.numData.toNat
+        ∧ OptIn i.credits 0 r.numData.toNat ∧ OptIn i.license 0 r.numData.toNat
+        ∧ OptIn i.settings 0 r.numData.toNat := by
+  obtain ⟨res, hres, _⟩ := findItem_ok inv MAP_ITEMTYPE_INFO 0
+  unfold info
+  rw [liftDf_ok hres, numData_ok inv]
+  cases res with
+  | none => simp
+  | some v =>
+    simp only
+    exact ⟨fun s => wrapErr_no_panic (Info.fromRaw_no_panic _ _ _ s),
+      fun i hi => Info.fromRaw_ok (wrapErr_ok hi)⟩
+
+/-- `group(index)` for an index out of `group_indices()` -/
+theorem group_spec {r : Reader} (inv : Inv r) {ga gb la lb k : Nat}
+    (hg : typeRange r MAP_ITEMTYPE_GROUP = .ok (ga, gb)) (hl : typeRange r MAP_ITEMTYPE_LAYER = .ok (la, lb))
+    (h1 : ga ≤ k) (h2 : k < gb) :
+    (∀ s, group r k ≠ .panic s) ∧ ∀ g, group r k = .ok g →
+      la ≤ g.layersStart ∧ g.layersStart ≤ g.layersEnd ∧ g.layersEnd ≤ lb := by
+  obtain ⟨v, hv, _, hty⟩ := item_of_type_range inv (typeRange_inv hg) h1 h2
+  unfold group
+  rw [liftDf_ok hv]
+  simp only
+  rw [if_neg (by omega), hl]
+  simp only
+  constructor
+  · intro s h
+    split at h
+    · cases h
+    · exact Group.fromRaw_no_panic _ _ _ s h
+  · intro g h
+    split at h
+    · cases h
+    · exact Group.fromRaw_ok h
+
+
+/-- `layer(index)` for an index out of the layer range (in particular out of a group's
+`layer_indices`) -/
+theorem layer_spec {r : Reader} (inv : Inv r) {la lb k : Nat}
+    (hl : typeRange r MAP_ITEMTYPE_LAYER = .ok (la, lb)) (h1 : la ≤ k) (h2 : k < lb) :
+    (∀ s, layer r k ≠ .panic s) ∧ ∀ l, layer r k = .ok l →
+      ∃ ea eb ia ib sa sb, typeRange r MAP_ITEMTYPE_ENVELOPE = .ok (ea, eb)
+        ∧ typeRange r MAP_ITEMTYPE_IMAGE = .ok (ia, ib)
+        ∧ typeRange r MAP_ITEMTYPE_DDRACE_SOUND = .ok (sa, sb)
+        ∧ l.InRange 0 r.numData.toNat ea eb ia ib sa sb := by
+  obtain ⟨v, hv, _, hty⟩ := item_of_type_range inv (typeRange_inv hl) h1 h2
+  obtain ⟨ea, eb, he, _⟩ := typeRange_ok inv MAP_ITEMTYPE_ENVELOPE
+  obtain ⟨ia, ib, hi, _⟩ := typeRange_ok inv MAP_ITEMTYPE_IMAGE
+  obtain ⟨sa, sb, hs, _⟩ := typeRange_ok inv MAP_ITEMTYPE_DDRACE_SOUND
+  unfold layer
+  rw [liftDf_ok hv]
+  simp only
+  rw [if_neg (by omega), numData_ok inv, he, hi, hs]
+  simp only
+  constructor
+  · intro s h
+    split at h
+    · cases h
+    · exact Layer.fromRaw_no_panic _ _ _ _ _ _ _ _ _ s h
+  · intro l h
+    split at h
+    · cases h
+    · exact ⟨ea, eb, ia, ib, sa, sb, rfl, rfl, rfl, Layer.fromRaw_ok h⟩
+
+/-- `image(index)` for any item index -/
+theorem image_spec {r : Reader} (inv : Inv r) {k : Nat} (hk : k < r.numItems.toNat) :
+    (∀ s, image r k ≠ .panic s) ∧ ∀ x, image r k = .ok x →
+      x.name < r.numData.toNat ∧ OptIn x.data 0 r.numData.toNat := by
+  obtain ⟨v, hv, _⟩ := item_ok inv hk
+  unfold image
+  rw [liftDf_ok hv, numData_ok inv]
+  simp only
+  constructor
+  · intro s h
+    split at h
+    · cases h
+    · exact Image.fromRaw_no_panic _ _ _ s h
+  · intro x h
+    split at h
+    · cases h
+    · exact ⟨(Image.fromRaw_ok h).1.2, (Image.fromRaw_ok h).2⟩
+
+
+/-! ### `game_layers` -/
+
+/-- invariant of the `game_layers` accumulator: every slot holds a data index, and once a slot is
+filled the game group is known (so the final `unwrap`s cannot fail) -/
+structure GlAcc.Good (acc : GlAcc) (nd : Nat) : Prop where
+  game : OptIn acc.game 0 nd
+  teleport : OptIn acc.teleport 0 nd
+  speedup : OptIn acc.speedup 0 nd
+  front : OptIn acc.front 0 nd
+  switch : OptIn acc.switch 0 nd
+  tune : OptIn acc.tune 0 nd
+  gwhOfGame : acc.gwh = none → acc.game = none
+  groupOfGwh : acc.gwh ≠ none → acc.gameGroup ≠ none
+
+theorem optIn_some {d a b : Nat} (h : a ≤ d ∧ d < b) : OptIn (some d) a b := by
+  intro i hi; cases hi; exact h
+
+/-- after a `put` the slots are still data indices; `gwh`/`gameGroup` are untouched -/
+structure GlAcc.Put (acc acc' : GlAcc) (nd : Nat) : Prop where
+  game : OptIn acc'.game 0 nd
+  teleport : OptIn acc'.teleport 0 nd
+  speedup : OptIn acc'.speedup 0 nd
+  front : OptIn acc'.front 0 nd
+  switch : OptIn acc'.switch 0 nd
+  tune : OptIn acc'.tune 0 nd
+  gwh : acc'.gwh = acc.gwh
+  gameGroup : acc'.gameGroup = acc.gameGroup
+
+theorem glPut_some {acc acc' : GlAcc} {ty : TilemapType} {nd ea eb ia ib : Nat}
+    (good : acc.Good nd) (hty : ty.InRange 0 nd ea eb ia ib) (h : glPut acc ty = some (some acc')) :
+    GlAcc.Put acc acc' nd := by
+  cases ty with
+  | normal c e i d => simp [glPut] at h
+  | game d =>
+    simp only [glPut] at h
+    split at h
+    · cases h
+      exact ⟨optIn_some hty, good.teleport, good.speedup, good.front, good.switch, good.tune, rfl, rfl⟩
+    · cases h
+  | teleport d z =>
+    simp only [glPut] at h
+    split at h
+    · cases h
+      exact ⟨good.game, optIn_some hty.1, good.speedup, good.front, good.switch, good.tune, rfl, rfl⟩
+    · cases h
+  | speedup d z =>
+    simp only [glPut] at h
+    split at h
+    · cases h
+      exact ⟨good.game, good.teleport, optIn_some hty.1, good.front, good.switch, good.tune, rfl, rfl⟩
+    · cases h
+  | front d z =>
+    simp only [glPut] at h
+    split at h
+    · cases h
+      exact ⟨good.game, good.teleport, good.speedup, optIn_some hty.1, good.switch, good.tune, rfl, rfl⟩
+    · cases h
+  | switch d z =>
+    simp only [glPut] at h
+    split at h
+    · cases h
+      exact ⟨good.game, good.teleport, good.speedup, good.front, optIn_some hty.1, good.tune, rfl, rfl⟩
+    · cases h
+  | tune d z =>
+    simp only [glPut] at h
+    split at h
+    · cases h
+      exact ⟨good.game, good.teleport, good.speedup, good.front, good.switch, optIn_some hty.1, rfl, rfl⟩
+    · cases h
+
+theorem glDims_spec {acc0 acc acc' : GlAcc} {nd i : Nat} {g : Group} {tm : Tilemap}
+    (good : acc0.Good nd) (put : GlAcc.Put acc0 acc nd) :
+    (∀ s, glDims i g tm acc ≠ .panic s) ∧ (glDims i g tm acc = .ok acc' → acc'.Good nd) := by
+  unfold glDims
+  split
+  · rename_i gi gw gh hg
+    constructor
+    · intro s; repeat' split
+      all_goals simp
+    · intro h
+      split at h; · cases h
+      split at h; · cases h
+      cases h
+      have hg0 : acc0.gwh ≠ none := by rw [← put.gwh, hg]; simp
+      exact ⟨put.game, put.teleport, put.speedup, put.front, put.switch, put.tune,
+        (fun hn => by rw [hg] at hn; cases hn),
+        (fun _ => by rw [put.gameGroup]; exact good.groupOfGwh hg0)⟩
+  · constructor
+    · intro s; simp
+    · intro h
+      cases h
+      exact ⟨put.game, put.teleport, put.speedup, put.front, put.switch, put.tune,
+        (fun hn => by simp at hn), (fun _ => by simp)⟩
+
+theorem glLayer_spec {r : Reader} (inv : Inv r) {la lb k i : Nat} {g : Group} {acc : GlAcc}
+    (hl : typeRange r MAP_ITEMTYPE_LAYER = .ok (la, lb)) (h1 : la ≤ k) (h2 : k < lb)
+    (good : acc.Good r.numData.toNat) :
+    (∀ s, glLayer r i g k acc ≠ .panic s) ∧ ∀ acc', glLayer r i g k acc = .ok acc' →
+      acc'.Good r.numData.toNat := by
+  obtain ⟨hnp, hok⟩ := layer_spec inv hl h1 h2
+  unfold glLayer
+  cases hlay : layer r k with
+  | panic s => exact absurd hlay (hnp s)
+  | err e => simp
+  | ok l =>
+    obtain ⟨ea, eb, ia, ib, sa, sb, _, _, _, hin⟩ := hok l hlay
+    simp only
+    cases hlt : l.t with
+    | quads q => simp only; exact ⟨fun s => by simp, fun acc' h => by cases h; exact good⟩
+    | sounds q => simp only; exact ⟨fun s => by simp, fun acc' h => by cases h; exact good⟩
+    | tilemap tm =>
+      simp only
+      unfold Layer.InRange at hin
+      rw [hlt] at hin
+      simp only at hin
+      cases hput : glPut acc tm.type with
+      | none => simp
+      | some o =>
+        cases o with
+        | none => simp only; exact ⟨fun s => by simp, fun acc' h => by cases h; exact good⟩
+        | some acc1 =>
+          simp only
+          have put := glPut_some good hin.1 hput
+          exact ⟨(glDims_spec good put (acc' := acc1)).1, fun acc' h => (glDims_spec good put).2 h⟩
+
+theorem glLayers_spec {r : Reader} (inv : Inv r) {la lb i : Nat} {g : Group}
+    (hl : typeRange r MAP_ITEMTYPE_LAYER = .ok (la, lb)) :
+    ∀ (n k : Nat) (acc : GlAcc), la ≤ k → k + n ≤ lb → acc.Good r.numData.toNat →
+      (∀ s, glLayers r i g n k acc ≠ .panic s) ∧ ∀ acc', glLayers r i g n k acc = .ok acc' →
+        acc'.Good r.numData.toNat := by
+  intro n
+  induction n with
+  | zero => intro k acc _ _ good; unfold glLayers; exact ⟨fun s => by simp, fun acc' h => by cases h; exact good⟩
+  | succ n ih =>
+    intro k acc h1 h2 good
+    obtain ⟨hnp, hok⟩ := glLayer_spec (i := i) (g := g) inv hl h1 (by omega) good
+    unfold glLayers
+    cases hx : glLayer r i g k acc with
+    | panic s => exact absurd hx (hnp s)
+    | err e => simp
+    | ok acc1 => simp only; exact ih (k + 1) acc1 (by omega) (by omega) (hok acc1 hx)
+
+theorem glGroups_spec {r : Reader} (inv : Inv r) {ga gb la lb : Nat}
+    (hg : typeRange r MAP_ITEMTYPE_GROUP = .ok (ga, gb))
+    (hl : typeRange r MAP_ITEMTYPE_LAYER = .ok (la, lb)) :
+    ∀ (n i : Nat) (acc : GlAcc), ga ≤ i → i + n ≤ gb → acc.Good r.numData.toNat →
+      (∀ s, glGroups r n i acc ≠ .panic s) ∧ ∀ acc', glGroups r n i acc = .ok acc' →
+        acc'.Good r.numData.toNat := by
+  intro n
+  induction n with
+  | zero => intro i acc _ _ good; unfold glGroups; exact ⟨fun s => by simp, fun acc' h => by cases h; exact good⟩
+  | succ n ih =>
+    intro i acc h1 h2 good
+    obtain ⟨hnp, hok⟩ := group_spec inv hg hl h1 (by omega : i < gb)
+    unfold glGroups
+    cases hx : group r i with
+    | panic s => exact absurd hx (hnp s)
+    | err e => simp
+    | ok g =>
+      simp only
+      obtain ⟨b1, b2, b3⟩ := hok g hx
+      obtain ⟨hnp2, hok2⟩ := glLayers_spec (i := i) (g := g) inv hl (g.layersEnd - g.layersStart)
+        g.layersStart acc b1 (by omega) good
+      cases hy : glLayers r i g (g.layersEnd - g.layersStart) g.layersStart acc with
+      | panic s => exact absurd hy (hnp2 s)
+      | err e => simp
+      | ok acc1 => simp only; exact ih (i + 1) acc1 (by omega) (by omega) (hok2 acc1 hy)
+
+/-- `game_layers()`: never a panic; every data index it returns is below `num_data` -/
+theorem gameLayers_spec {r : Reader} (inv : Inv r) :
+    (∀ s, gameLayers r ≠ .panic s) ∧ ∀ gl, gameLayers r = .ok gl →
+      gl.game < r.numData.toNat ∧ OptIn gl.teleport 0 r.numData.toNat
+        ∧ OptIn gl.speedup 0 r.numData.toNat ∧ OptIn gl.front 0 r.numData.toNat
+        ∧ OptIn gl.switch 0 r.numData.toNat ∧ OptIn gl.tune 0 r.numData.toNat := by
+  obtain ⟨ga, gb, hg, hgab, _⟩ := typeRange_ok inv MAP_ITEMTYPE_GROUP
+  obtain ⟨la, lb, hl, _, _⟩ := typeRange_ok inv MAP_ITEMTYPE_LAYER
+  have good0 : GlAcc.Good {} r.numData.toNat :=
+    ⟨optIn_none _ _, optIn_none _ _, optIn_none _ _, optIn_none _ _, optIn_none _ _, optIn_none _ _,
+      fun _ => rfl, fun h => absurd rfl h⟩
+  obtain ⟨hnp, hok⟩ := glGroups_spec inv hg hl (gb - ga) ga {} (by omega) (by omega) good0
+  unfold gameLayers
+  rw [hg]
+  simp only
+  cases hx : glGroups r (gb - ga) ga {} with
+  | panic s => exact absurd hx (hnp s)
+  | err e => simp
+  | ok acc =>
+    have good := hok acc hx
+    simp only
+    cases hgame : acc.game with
+    | none => simp
+    | some game =>
+      simp only
+      have hgwh : acc.gwh ≠ none := fun hn => by
+        have := good.gwhOfGame hn; rw [hgame] at this; cases this
+      have hgg := good.groupOfGwh hgwh
+      cases hw : acc.gwh with
+      | none => exact absurd hw hgwh
+      | some t =>
+        obtain ⟨gi, gw, gh⟩ := t
+        cases hq : acc.gameGroup with
+        | none => exact absurd hq hgg
+        | some g =>
+          simp only
+          refine ⟨fun s => by simp, ?_⟩
+          intro gl h
+          cases h
+          have := good.game game hgame
+          exact ⟨this.2, good.teleport, good.speedup, good.front, good.switch, good.tune⟩
+
+
+/-! ### data accessors -/
+
+theorem readData_no_panic {r : Reader} (inv : Inv r) (z : Zlib)
+    (hz : ∀ n src out, z n src = some out → out.length ≤ n) {d : Nat} (hd : d < r.numData.toNat)
+    (s : String) : readData r z d ≠ .panic s := by
+  unfold readData
+  rcases readData_ok inv z hz hd with ⟨e, he⟩ | ⟨out, ho, _⟩
+  · rw [he]; simp [liftDf]
+  · rw [ho]; simp [liftDf]
+
+theorem string_no_panic {r : Reader} (inv : Inv r) (z : Zlib)
+    (hz : ∀ n src out, z n src = some out → out.length ≤ n) {d : Nat} (hd : d < r.numData.toNat)
+    (s : String) : string r z d ≠ .panic s := by
+  intro h
+  unfold string at h
+  split at h
+  · cases h
+  · rename_i hx; exact readData_no_panic inv z hz hd _ hx
+  · split at h
+    · first
+        | cases h
+        | (simp only [] at h; split at h <;> cases h)
+    · cases h
+
+theorem imageName_no_panic {r : Reader} (inv : Inv r) (z : Zlib)
+    (hz : ∀ n src out, z n src = some out → out.length ≤ n) {d : Nat} (hd : d < r.numData.toNat)
+    (s : String) : imageName r z d ≠ .panic s := by
+  intro h
+  unfold imageName at h
+  split at h
+  · cases h
+  · rename_i hx; exact readData_no_panic inv z hz hd _ hx
+  · split at h
+    · first
+        | cases h
+        | (simp only [] at h; split at h <;> cases h)
+    · cases h
+
+theorem settings_no_panic {r : Reader} (inv : Inv r) (z : Zlib)
+    (hz : ∀ n src out, z n src = some out → out.length ≤ n) {d : Nat} (hd : d < r.numData.toNat)
+    (s : String) : settings r z d ≠ .panic s := by
+  intro h
+  unfold settings at h
+  split at h
+  · cases h
+  · rename_i hx; exact readData_no_panic inv z hz hd _ hx
+  · split at h
+    · first
+        | cases h
+        | (simp only [] at h; split at h <;> cases h)
+    · cases h
+
+theorem tilesRaw_spec {r : Reader} (inv : Inv r) (z : Zlib)
+    (hz : ∀ n src out, z n src = some out → out.length ≤ n) {d : Nat} (hd : d < r.numData.toNat)
+    (size : Nat) (e : String) :
+    (∀ s, tilesRaw r z d size e ≠ .panic s) ∧ ∀ raw, tilesRaw r z d size e = .ok raw →
+      raw.length % size = 0 := by
+  unfold tilesRaw
+  cases hx : readData r z d with
+  | panic s => exact absurd hx (readData_no_panic inv z hz hd s)
+  | err e => simp
+  | ok raw =>
+    simp only
+    split
+    · simp
+    · rename_i hm
+      exact ⟨fun s => by simp, fun raw' h => by cases h; omega⟩
+
+theorem tiles_spec {r : Reader} (inv : Inv r) (z : Zlib)
+    (hz : ∀ n src out, z n src = some out → out.length ≤ n) {d : Nat} (hd : d < r.numData.toNat)
+    (width height size : Nat) (e : String) :
+    (∀ s, tiles r z d width height size e ≠ .panic s) ∧ ∀ raw, tiles r z d width height size e = .ok raw →
+      raw.length % size = 0 ∧ height * width = raw.length / size := by
+  obtain ⟨hnp, hok⟩ := tilesRaw_spec inv z hz hd size e
+  unfold tiles
+  cases hx : tilesRaw r z d size e with
+  | panic s => exact absurd hx (hnp s)
+  | err e => simp
+  | ok raw =>
+    simp only
+    split
+    · simp
+    · rename_i hm
+      exact ⟨fun s => by simp, fun raw' h => by cases h; exact ⟨hok raw hx, by omega⟩⟩
+
+end Tw.Map
